@@ -50,6 +50,8 @@ def _field_setting(rng):
 def gen_node(rng, depth, counter, used):
     n = rng.randrange(1, 4)
     keys = gen.pick_keys(rng, n + 3, avoid=used)
+    # keys that are no identifiers (set by item access): the derived variable name is the key in upper case, punctuation kept
+    keys = [(k + rng.choice(["-main", "-x", "-2"])) if rng.random() < 0.12 and (k + "-main") not in used else k for k in keys]
     fields = []
     for key in keys[:n]:
         fam = rng.choice(FAMS)
@@ -627,6 +629,21 @@ def _round(case, ctx, res, cc, root, names, built, environ, label):
                     res.viol("M-env", "assignment-lost-when-the-section-is-handed-over", "%s bound to %s=%r was assigned %r; after "
                              "twin[%r] = cfg[%r] the twin reads %r" % (path, name, environ[name], v[0], sec, sec, moved))
                     return False
+        # reset_value puts the field back to what the build gave it: the validated variable, not the declared default (a later
+        # document still cannot touch it, so the declared default would be neither the variable nor anything that was put in)
+        if node["family"] in ("challenge", "secure", "list", "dict"):
+            continue
+        try:
+            cc.reset_value(cfg, path)
+            back = plain(cfg[path])
+        except Exception as exc:
+            res.viol("M-env", "reset-raises", "reset_value(%r) for the field bound to %s=%r raised %r" % (path, name, environ[name], exc))
+            return False
+        res.count("resets_of_assigned_bound_fields_checked")
+        if model.match(norm, back):
+            res.viol("M-env", "reset-forgets-the-variable", "%s bound to %s=%r: after an assignment and reset_value it reads %r, the build "
+                     "gave %r" % (path, name, environ[name], back, norm))
+            return False
     unbound = [p for p, _nd, n in names if p not in bound]
     if bound and unbound:
         res.nontrivial(case["schema"], case["environ"], case["tree"])
